@@ -1,4 +1,6 @@
 import TcheranVerif.Model.Search
+import TcheranVerif.Proofs.SearchSound
+import TcheranVerif.Proofs.SearchStop
 /-!
 # C09 — stopping is safe at every instant (stop oracle of the search model)
 
@@ -10,25 +12,34 @@ The stop flag and the clock are the oracle "`stopAt`-th consultation reads true,
 * `start_first_iteration` — depth 1 is always started without consulting the flag, so a search
   stopped at the very first poll still has a first iteration to abort from and falls back to the
   picker's first move (`panic_move`).
-That an aborted search stops consulting the flag, returns a legal move and leaves usable tables is
-decided for **every** k on the implementation (hook H1) against the model and the Rules oracle;
-the structural proof (DESIGN App. B S3, S4) is not mechanised: partial.
+* **`stopped_search_legal`** — for **every** instant `k` at which the flag first reads true (and with
+  or without the every-node polling of hook H1) the search model still answers with a legal move of the
+  root, every line it reported before is a legal line, and **`tables_usable_after_stop`** the shared table
+  is left good: a later search on it, from a later position of the same game, again answers with a legal
+  move (`next_search_after_stop_legal`). From `Proofs/SearchSound.lean`; assumption: key faithfulness.
+  The position given to the search is an argument of a pure function: it cannot be touched.
+* **`stop_freezes_search`** — "unwinds without examining further positions": in the context a search
+  ends with, either the flag never read true, or it read true at the very last consultation that was made
+  and the node counter is exactly what it was at that consultation (ghost field `stoppedNodes`); every
+  function returns `abort` only in such a context (`abort_only_when_stopped`). `Proofs/SearchStop.lean`.
+That the implementation aborts after the same number of consultations as the model is decided for every
+k through hook H1.
 -/
 namespace Tcheran.Props.C09
 open Tcheran Tcheran.Search
 
-theorem poll_counts (c : Ctx) : (poll c).1.polls = c.polls + 1 := rfl
+theorem poll_counts (c : Search.Ctx) : (poll c).1.polls = c.polls + 1 := rfl
 
-theorem poll_other_fields (c : Ctx) : (poll c).1.nodes = c.nodes ∧ (poll c).1.stopAt = c.stopAt ∧
+theorem poll_other_fields (c : Search.Ctx) : (poll c).1.nodes = c.nodes ∧ (poll c).1.stopAt = c.stopAt ∧
     (poll c).1.everyNode = c.everyNode := ⟨rfl, rfl, rfl⟩
 
 /-- once the flag has read true it reads true at every later consultation -/
-theorem poll_sticky (c : Ctx) (h : (poll c).2 = true) : (poll (poll c).1).2 = true := by
+theorem poll_sticky (c : Search.Ctx) (h : (poll c).2 = true) : (poll (poll c).1).2 = true := by
   unfold poll at *
   simp only [Bool.and_eq_true, bne_iff_ne, ne_eq, decide_eq_true_eq] at *
   omega
 
-theorem poll_false_before (c : Ctx) (h : c.stopAt = 0 ∨ c.polls + 1 < c.stopAt) : (poll c).2 = false := by
+theorem poll_false_before (c : Search.Ctx) (h : c.stopAt = 0 ∨ c.polls + 1 < c.stopAt) : (poll c).2 = false := by
   unfold poll
   rcases h with h | h
   · simp [h]
@@ -36,26 +47,74 @@ theorem poll_false_before (c : Ctx) (h : c.stopAt = 0 ∨ c.polls + 1 < c.stopAt
     right; omega
 
 /-- the k-th consultation is the first to read true -/
-theorem poll_true_at (c : Ctx) (k : Nat) (hk : 0 < k) (hs : c.stopAt = k) (hp : c.polls + 1 = k) :
+theorem poll_true_at (c : Search.Ctx) (k : Nat) (hk : 0 < k) (hs : c.stopAt = k) (hp : c.polls + 1 = k) :
     (poll c).2 = true := by
   unfold poll
   simp only [Bool.and_eq_true, bne_iff_ne, ne_eq, decide_eq_true_eq]
   omega
 
 /-- `should_stop` only answers true when a consultation did -/
-theorem shouldStop_nodes (c : Ctx) : (shouldStop c).1.nodes = c.nodes := by
+theorem shouldStop_nodes (c : Search.Ctx) : (shouldStop c).1.nodes = c.nodes := by
   unfold shouldStop poll
   simp only
   repeat' split
   all_goals first | rfl | (simp_all; done)
 
-theorem start_first_iteration (c : Ctx) : shouldStartNewSearch c 1 = (c, true) := rfl
+theorem start_first_iteration (c : Search.Ctx) : shouldStartNewSearch c 1 = (c, true) := rfl
 
-theorem later_iterations_poll (c : Ctx) (d : Nat) (hd : d ≠ 1) :
+theorem later_iterations_poll (c : Search.Ctx) (d : Nat) (hd : d ≠ 1) :
     (shouldStartNewSearch c d).1.polls = c.polls + 1 := by
   unfold shouldStartNewSearch
   rw [if_neg hd]
   rfl
+
+
+open Rules in
+/-- **stopped_search_legal**: `stopAt` and `everyNode` are universally quantified -/
+theorem stopped_search_legal (T : SliderTables) (U : Universe) (fuel : Nat) (g : Game) (tt : TT.Table)
+    (history : Array Int) (depthLimit : Option Nat) (hr : U.R 0 g) (htt : TTGood U tt) :
+    ∀ (k : Nat) (everyNode : Bool),
+      (∀ m, (search fuel g tt history depthLimit k everyNode).best = some m → m ∈ legalMoves (ofGame g)) ∧
+      (∀ i ∈ (search fuel g tt history depthLimit k everyNode).infos, i.pv ≠ [] ∧ LegalLine g i.pv) :=
+  fun k e => ⟨(search_sound T U fuel g tt history depthLimit k e hr htt).1,
+    (search_sound T U fuel g tt history depthLimit k e hr htt).2.1⟩
+
+theorem tables_usable_after_stop (T : SliderTables) (U : Universe) (fuel : Nat) (g : Game) (tt : TT.Table)
+    (history : Array Int) (depthLimit : Option Nat) (hr : U.R 0 g) (htt : TTGood U tt) (k : Nat) (everyNode : Bool) :
+    TTGood U (search fuel g tt history depthLimit k everyNode).ctx.tt :=
+  (search_sound T U fuel g tt history depthLimit k everyNode hr htt).2.2
+
+open Rules in
+/-- a later search on the tables a stopped search left, from a position `j` plies further down the game -/
+theorem next_search_after_stop_legal (T : SliderTables) (U : Universe) (f1 f2 : Nat) (g1 g2 : Game) (j : Nat)
+    (tt : TT.Table) (h1 h2 : Array Int) (d1 d2 : Option Nat) (k : Nat) (e1 : Bool) (s2 : Nat) (e2 : Bool)
+    (hr1 : U.R 0 g1) (hr2 : U.R j g2) (htt : TTGood U tt) :
+    (∀ m, (search f2 g2 (search f1 g1 tt h1 d1 k e1).ctx.tt h2 d2 s2 e2).best = some m → m ∈ legalMoves (ofGame g2)) ∧
+    (∀ i ∈ (search f2 g2 (search f1 g1 tt h1 d1 k e1).ctx.tt h2 d2 s2 e2).infos, i.pv ≠ [] ∧ LegalLine g2 i.pv) := by
+  have hg := tables_usable_after_stop T U f1 g1 tt h1 d1 hr1 htt k e1
+  have hsh : TTGood (U.shift j) (search f1 g1 tt h1 d1 k e1).ctx.tt :=
+    ttGood_shift U 0 j (Nat.zero_le j) _ (fun n g d m hr => hg (0 + n) g d m hr)
+  have := search_sound T (U.shift j) f2 g2 _ h2 d2 s2 e2 hr2 hsh
+  exact ⟨this.1, this.2.1⟩
+
+
+/-- **stop_freezes_search** -/
+theorem stop_freezes_search (fuel : Nat) (g : Game) (tt : TT.Table) (history : Array Int)
+    (depthLimit : Option Nat) (stopAt : Nat) (everyNode : Bool) (k : Nat)
+    (hk : (search fuel g tt history depthLimit stopAt everyNode).ctx.stoppedNodes = some k) :
+    (search fuel g tt history depthLimit stopAt everyNode).ctx.nodes = k ∧
+    (search fuel g tt history depthLimit stopAt everyNode).ctx.polls =
+      (search fuel g tt history depthLimit stopAt everyNode).ctx.stopAt := by
+  rcases search_quiet fuel g tt history depthLimit stopAt everyNode with ⟨h1, _⟩ | ⟨h1, _, h3⟩
+  · rw [h1] at hk; cases hk
+  · rw [h1] at hk
+    exact ⟨Option.some.inj hk, h3⟩
+
+/-- a node of the search answers `abort` only in a context in which the flag read true at the last
+consultation made and no node has been counted since; otherwise the flag has not read true -/
+theorem abort_only_when_stopped (fuel : Nat) (g : Game) (a b : Int) (d p : Nat) (pv : List Move) (c : Search.Ctx)
+    (h : NotYet c) : AbPost (negamax fuel g a b d p pv c).res (negamax fuel g a b d p pv c).ctx :=
+  negamax_ab fuel g a b d p pv c h
 
 example : (poll { tt := TT.new 0, history := #[], killers := #[], counter := #[], stopAt := 1 }).2 = true := by decide
 
@@ -68,3 +127,8 @@ end Tcheran.Props.C09
 #print axioms Tcheran.Props.C09.shouldStop_nodes
 #print axioms Tcheran.Props.C09.start_first_iteration
 #print axioms Tcheran.Props.C09.later_iterations_poll
+#print axioms Tcheran.Props.C09.stopped_search_legal
+#print axioms Tcheran.Props.C09.tables_usable_after_stop
+#print axioms Tcheran.Props.C09.next_search_after_stop_legal
+#print axioms Tcheran.Props.C09.stop_freezes_search
+#print axioms Tcheran.Props.C09.abort_only_when_stopped
